@@ -78,6 +78,11 @@ def items(tier):
     combos = [(a, o) for a in arglists for o in optdicts if len(a) + len(o) <= 2 or (tier == "thorough" and len(a) + len(o) <= 3)]
     for i in range(0, len(combos), 12):
         out.append({"kind": "records", "combos": combos[i:i + 12]})
+    # several experiments in ONE invocation whose arguments / options compare equal but differ in type (0 == False == 0.0):
+    # each record must decode to what ITS task declared, for every listing order and under --jobs 1 and 3
+    for perm in itertools.permutations(range(3)):
+        for jobs in (1, 3):
+            out.append({"kind": "records-multi", "perm": list(perm), "jobs": jobs})
     for size in (0, 1, 4096, 65536, 65537, 200_000, 1_048_576):
         out.append({"kind": "real", "size": size})
     # an execution that is interrupted (SIGINT / SIGTERM to cond while the task runs) is an execution too: whatever the command
@@ -279,6 +284,35 @@ def run_item(item, tier):
                     elif os.path.exists(p):
                         viol("records:%s-unexpected" % fname, "%s exists although nothing was declared" % fname, art)
         res["sample"] = {"args": item["combos"][-1][0], "options": item["combos"][-1][1]}
+    elif item["kind"] == "records-multi":
+        from .. import graphs
+        variants = [([0, 1, "x"], {"k": 1, "f": 0}), ([False, True, "x"], {"k": True, "f": False}), ([0.0, 1.0, "x"], {"k": 1.0, "f": 0.0})]
+        names = ["e%d" % i for i in item["perm"]]
+        cond = "".join(graphs.render_task("e%d" % i, "exp", [], par=True, args=variants[i][0], options=variants[i][1]) for i in item["perm"])
+        cond += graphs.render_task("all", "group", [":" + n for n in names])
+        res["evals"] += 1
+        o = explore.execute({"files": {"COND": cond}, "argv": ["run", "//:all", "-j", str(item["jobs"])], "behaviours": {}}, name="c10m")
+        art = dict(item)
+        spawned = {e[2]: e[3] for e in o.vk.log if e[0] == "spawn"}
+        res["sigs"].add(explore.sig([item["perm"], item["jobs"]]))
+        for i in range(3):
+            sp = spawned.get("//:e%d" % i)
+            if sp is None:
+                viol("records:not-run", "experiment e%d of three was not spawned: %s" % (i, o.res.err_text[:200]), art)
+                continue
+            for fname, want in (("args.json", variants[i][0]), ("options.json", variants[i][1])):
+                try:
+                    with open(os.path.join(sp["out"], fname), encoding="utf-8") as f:
+                        got = json.load(f)
+                except (OSError, ValueError) as ex:
+                    viol("records:%s-missing" % fname, "%s missing/unreadable for %r: %s" % (fname, want, ex), art)
+                    continue
+                gv = got if isinstance(got, list) else [got.get(k) for k in want] if isinstance(got, dict) else None
+                wv = want if isinstance(want, list) else list(want.values())
+                if got != want or gv is None or [type(x) for x in gv] != [type(x) for x in wv]:
+                    viol("records:%s-wrong-among-equal" % fname, "%s of //:e%d decodes to %r, declared %r (listing order %r, --jobs %d)"
+                         % (fname, i, got, want, names, item["jobs"]), art)
+        res["sample"] = {"declared": [list(v) for v in variants], "listing_order": names, "jobs": item["jobs"]}
     elif item["kind"] == "real":
         _real(item["size"], res, viol)
     elif item["kind"] == "tee-threads":
